@@ -316,6 +316,10 @@ impl Prop for C08 {
             ("valuecycle:constraint", "A ::= INTEGER (0..a)\na A ::= a"),
             ("valuecycle:oid", "a OBJECT IDENTIFIER ::= { b 1 }\nb OBJECT IDENTIFIER ::= { a 2 }"),
             ("objsetcycle", "C ::= CLASS { &id INTEGER UNIQUE } S1 C ::= { S2 } S2 C ::= { S1 }"),
+            ("objsetcycle-members", "K ::= CLASS { &id INTEGER UNIQUE } o1 K ::= { &id 1 } o2 K ::= { &id 2 } SetB K ::= { o1 | SetC } SetC K ::= { o2 | SetB }"),
+            ("objsetcycle-3", "K ::= CLASS { &id INTEGER UNIQUE } o1 K ::= { &id 1 } SetA K ::= { o1 | SetB } SetB K ::= { o1 | SetC } SetC K ::= { o1 | SetA }"),
+            ("objsetcycle-self", "K ::= CLASS { &id INTEGER UNIQUE } o1 K ::= { &id 1 } SetA K ::= { o1 | SetA }"),
+            ("objsetcycle-ext", "K ::= CLASS { &id INTEGER UNIQUE } o1 K ::= { &id 1 } SetA K ::= { o1, ..., SetB } SetB K ::= { SetA | o1, ... }"),
             ("classcycle", "C ::= CLASS { &f C.&f }"),
             ("paramcycle", "P { T } ::= P { T }\nA ::= P { INTEGER }"),
             ("paramcycle2", "P { T } ::= SEQUENCE { p Q { T } }\nQ { T } ::= SEQUENCE { q P { T } }\nA ::= P { INTEGER }"),
